@@ -1,4 +1,6 @@
 import RoaringModel.Ser
+import RoaringModel.IO
+import RoaringModel.TreemapSer
 /-!
 # Fidelity audit, area "codecs and reporting": the mirrored definitions equal the proof-carrying ones
 
@@ -95,6 +97,79 @@ theorem serializeM_eq (ovf : Bool) (b : Bitmap) (h : ∀ c ∈ b, 1 ≤ c.len) :
 example : Bitmap.serializeM true [⟨0, .array []⟩] = none
     ∧ Bitmap.serializeM false [⟨0, .array []⟩] = some [58, 48, 0, 0, 1, 0, 0, 0, 0, 0, 255, 255, 16, 0, 0, 0]
     ∧ Bitmap.serialize [⟨0, .array []⟩] = [58, 48, 0, 0, 1, 0, 0, 0, 0, 0, 0, 0, 16, 0, 0, 0] := by decide
+
+/-! ### the writer path (`ser_fail`) and the treemap encoder -/
+
+theorem writeFieldsM_map_some : ∀ (fs : List (List Nat)) (w : SWriter),
+    w.writeFieldsM (fs.map some) = some (w.writeFields fs)
+  | [], w => rfl
+  | f :: fs, w => by
+    simp only [List.map_cons, SWriter.writeFieldsM, SWriter.writeFields]
+    cases hw : w.writeAll f with
+    | mk ok w' =>
+      cases ok with
+      | true => exact writeFieldsM_map_some fs w'
+      | false => rfl
+
+theorem descrFieldsM_eq (ovf : Bool) : ∀ (b : Bitmap), (∀ c ∈ b, 1 ≤ c.len) →
+    Bitmap.descrFieldsM ovf b = (Bitmap.descrFields b).map some := by
+  intro b
+  induction b with
+  | nil => intro _; rfl
+  | cons c cs ih =>
+    intro h
+    have hc := h c (by simp)
+    have hcs := ih (fun c' hc' => h c' (by simp [hc']))
+    unfold Bitmap.descrFieldsM Bitmap.descrFields at hcs ⊢
+    simp only [List.flatMap_cons, List.map_append, hcs, cardField_pos ovf c.len hc, Option.map_some,
+      List.map_cons, List.map_nil]
+
+theorem serializeFieldsM_eq (ovf : Bool) (b : Bitmap) (h : ∀ c ∈ b, 1 ≤ c.len) :
+    Bitmap.serializeFieldsM ovf b = (Bitmap.serializeFields b).map some := by
+  unfold Bitmap.serializeFieldsM Bitmap.serializeFields
+  rw [descrFieldsM_eq ovf b h]
+  simp only [List.map_append, List.map_cons, List.map_nil]
+
+/-- **serialize_into on a faulty writer.** No panic and the same outcome as `Bitmap.serializeInto` whenever no
+    container is empty. -/
+theorem serializeIntoM_eq (ovf : Bool) (b : Bitmap) (h : ∀ c ∈ b, 1 ≤ c.len) (w : SWriter) :
+    Bitmap.serializeIntoM ovf b w = some (Bitmap.serializeInto b w) := by
+  unfold Bitmap.serializeIntoM Bitmap.serializeInto
+  rw [serializeFieldsM_eq ovf b h, writeFieldsM_map_some]
+
+theorem partsM_eq (ovf : Bool) : ∀ (t : Treemap), (∀ p ∈ t, ∀ c ∈ p.2, 1 ≤ c.len) →
+    Treemap.partsM ovf t = some (t.flatMap fun p => u32le p.1 ++ Bitmap.serialize p.2) := by
+  intro t
+  induction t with
+  | nil => intro _; rfl
+  | cons p ps ih =>
+    intro h
+    have hp := serializeM_eq ovf p.2 (h p (by simp))
+    have hps := ih (fun q hq => h q (by simp [hq]))
+    simp only [Treemap.partsM, hp, hps, List.flatMap_cons, List.append_assoc]
+
+/-- **treemap serialize_into.** -/
+theorem tserializeM_eq (ovf : Bool) (t : Treemap) (h : ∀ p ∈ t, ∀ c ∈ p.2, 1 ≤ c.len) :
+    Treemap.serializeM ovf t = some (Treemap.serialize t) := by
+  unfold Treemap.serializeM Treemap.serialize
+  rw [partsM_eq ovf t h]; rfl
+
+theorem tserializeFieldsM_eq (ovf : Bool) : ∀ (t : Treemap), (∀ p ∈ t, ∀ c ∈ p.2, 1 ≤ c.len) →
+    (t.flatMap fun p => some (u32le p.1) :: Bitmap.serializeFieldsM ovf p.2)
+      = (t.flatMap fun p => u32le p.1 :: Bitmap.serializeFields p.2).map some := by
+  intro t
+  induction t with
+  | nil => intro _; rfl
+  | cons p ps ih =>
+    intro h
+    have hp := serializeFieldsM_eq ovf p.2 (h p (by simp))
+    have hps := ih (fun q hq => h q (by simp [hq]))
+    simp only [List.flatMap_cons, hp, hps, List.map_append, List.map_cons, List.cons_append]
+
+theorem tserializeIntoM_eq (ovf : Bool) (t : Treemap) (h : ∀ p ∈ t, ∀ c ∈ p.2, 1 ≤ c.len) (w : SWriter) :
+    Treemap.serializeIntoM ovf t w = some (Treemap.serializeInto t w) := by
+  unfold Treemap.serializeIntoM Treemap.serializeInto Treemap.serializeFieldsM Treemap.serializeFields
+  rw [tserializeFieldsM_eq ovf t h, ← List.map_cons, writeFieldsM_map_some]
 
 end Fidelity
 end Roaring
